@@ -115,6 +115,9 @@ pub fn run(tier: &str) -> Part {
         msgs.push((sql.clone(), *k, n.to_string()));
         msgs.push((format!("{};", sql), *k, n.to_string()));
         msgs.push((format!("/* c */ {}", sql.to_lowercase()), *k, n.to_string()));
+        // statements of any size: padded past typical buffer / shortcut sizes (300 B, 9 KB)
+        msgs.push((format!("{} /* {} */", sql, "x".repeat(300)), *k, format!("{}:pad300", n)));
+        msgs.push((format!("{}{}", " ".repeat(9000), sql), *k, format!("{}:pad9000", n)));
     }
     let combine = |a: Kind, b: Kind| -> Kind {
         match (a, b) {
@@ -329,7 +332,7 @@ pub fn run(tier: &str) -> Part {
     part.extra.insert("override_states".into(), json!(states.len()));
     part.extra.insert("override_transitions".into(), json!(transitions.len()));
     part.rule = format!(
-        "{} labelled statement shapes (label from the generating production) as single statements in 3 spellings, all{} two-statement{} messages, as Query and as Parse, under 6 (default_role, primary_reads) configurations; all histories of length {} over 13 events (5 message classes, SET SERVER ROLE x5, SET PRIMARY READS x3) against a reference override state machine; parser-rejected messages and EXPLAIN of a read are don't-cares",
+        "{} labelled statement shapes (label from the generating production) as single statements in 5 spellings (incl. padded to 300 B and 9 KB), all{} two-statement{} messages, as Query and as Parse, under 6 (default_role, primary_reads) configurations; all histories of length {} over 13 events (5 message classes, SET SERVER ROLE x5, SET PRIMARY READS x3) against a reference override state machine; parser-rejected messages and EXPLAIN of a read are don't-cares",
         SHAPES.len(),
         if thorough { "" } else { " (every 3rd)" },
         if thorough { " and a thinned set of three-statement" } else { "" },
